@@ -52,7 +52,9 @@ enum { OPF_MAY_FAIL = 1,      // NULL is an acceptable answer even without an in
        OPF_SENTINEL = 16,
        OPF_MUST_SUCCEED = 32,
        OPF_FULL_FILL = 64,
-       OPF_WAIT = 128 };      // allocation: wait until the slot is empty; free: wait until it is filled (bounded producer/consumer queue)     // write/verify every byte even of huge blocks  // NULL is a violation even after earlier (healed) faults   // free: a sentinel of a purge activity round
+       OPF_WAIT = 128,
+       OPF_NEW_HANDLER = 256,
+       OPF_ZOMBIE = 512 };           // free by a thread that did not allocate the block: remember it for its owner, whose later double_free 'fire' releases it a second time      // mi_new* operations: a std::new_handler is installed for the call that makes the simulated OS give memory again (os_heal)      // allocation: wait until the slot is empty; free: wait until it is filled (bounded producer/consumer queue)     // write/verify every byte even of huge blocks  // NULL is a violation even after earlier (healed) faults   // free: a sentinel of a purge activity round
 
 struct Program { std::vector<Op> ops; bool explicit_done = false; bool reuse_id = false; };
 
